@@ -70,7 +70,6 @@ package proportion
 //@   props C08 C14 C10
 //@   requires pp != nil && ssn != nil && ssn.ClusterInfo != nil && event != nil && event.Task != nil && event.Task.AcceptedResource != nil
 //@   requires ssn.ClusterInfo.PodGroupInfos[event.Task.Job] != nil
-//@   requires chargedGPU() == event.Task.AcceptedResource.GetGpusQuota()
 //@   requires utils.chainOK(pp.queues, ssn.ClusterInfo.PodGroupInfos[event.Task.Job].Queue) && utils.depth(ssn.ClusterInfo.PodGroupInfos[event.Task.Job].Queue) >= 1
 //@   modifies family(pp.queues[ssn.ClusterInfo.PodGroupInfos[event.Task.Job].Queue].CPU.Allocated), family(pp.queues[ssn.ClusterInfo.PodGroupInfos[event.Task.Job].Queue].CPU.AllocatedNotPreemptible)
 //@   loop 1
@@ -87,8 +86,8 @@ package proportion
 //@   ensures [CPUAllocatedNotPreemptible] forall q *rs.QueueAttributes :: q.CPU.AllocatedNotPreemptible == old(q.CPU.AllocatedNotPreemptible) + add(pp.queues, ssn.ClusterInfo.PodGroupInfos[event.Task.Job].Queue, q, ite(ssn.ClusterInfo.PodGroupInfos[event.Task.Job].Preemptibility == "preemptible", 0.0, event.Task.AcceptedResource.milliCpu))
 //@   ensures [MemoryAllocated] forall q *rs.QueueAttributes :: q.Memory.Allocated == old(q.Memory.Allocated) + add(pp.queues, ssn.ClusterInfo.PodGroupInfos[event.Task.Job].Queue, q, event.Task.AcceptedResource.memory)
 //@   ensures [MemoryAllocatedNotPreemptible] forall q *rs.QueueAttributes :: q.Memory.AllocatedNotPreemptible == old(q.Memory.AllocatedNotPreemptible) + add(pp.queues, ssn.ClusterInfo.PodGroupInfos[event.Task.Job].Queue, q, ite(ssn.ClusterInfo.PodGroupInfos[event.Task.Job].Preemptibility == "preemptible", 0.0, event.Task.AcceptedResource.memory))
-//@   ensures [GPUAllocated] forall q *rs.QueueAttributes :: q.GPU.Allocated == old(q.GPU.Allocated) + add(pp.queues, ssn.ClusterInfo.PodGroupInfos[event.Task.Job].Queue, q, chargedGPU())
-//@   ensures [GPUAllocatedNotPreemptible] forall q *rs.QueueAttributes :: q.GPU.AllocatedNotPreemptible == old(q.GPU.AllocatedNotPreemptible) + add(pp.queues, ssn.ClusterInfo.PodGroupInfos[event.Task.Job].Queue, q, ite(ssn.ClusterInfo.PodGroupInfos[event.Task.Job].Preemptibility == "preemptible", 0.0, chargedGPU()))
+//@   ensures [GPUAllocated] forall q *rs.QueueAttributes :: q.GPU.Allocated == old(q.GPU.Allocated) + add(pp.queues, ssn.ClusterInfo.PodGroupInfos[event.Task.Job].Queue, q, event.Task.AcceptedResource.GetGpusQuota())
+//@   ensures [GPUAllocatedNotPreemptible] forall q *rs.QueueAttributes :: q.GPU.AllocatedNotPreemptible == old(q.GPU.AllocatedNotPreemptible) + add(pp.queues, ssn.ClusterInfo.PodGroupInfos[event.Task.Job].Queue, q, ite(ssn.ClusterInfo.PodGroupInfos[event.Task.Job].Preemptibility == "preemptible", 0.0, event.Task.AcceptedResource.GetGpusQuota()))
 //@ end
 
 // Mirror image: the deallocate handler subtracts exactly what the allocate handler added.
@@ -96,7 +95,6 @@ package proportion
 //@   props C08 C14 C10
 //@   requires pp != nil && ssn != nil && ssn.ClusterInfo != nil && event != nil && event.Task != nil && event.Task.AcceptedResource != nil
 //@   requires ssn.ClusterInfo.PodGroupInfos[event.Task.Job] != nil
-//@   requires chargedGPU() == event.Task.AcceptedResource.GetGpusQuota()
 //@   requires utils.chainOK(pp.queues, ssn.ClusterInfo.PodGroupInfos[event.Task.Job].Queue) && utils.depth(ssn.ClusterInfo.PodGroupInfos[event.Task.Job].Queue) >= 1
 //@   modifies family(pp.queues[ssn.ClusterInfo.PodGroupInfos[event.Task.Job].Queue].CPU.Allocated), family(pp.queues[ssn.ClusterInfo.PodGroupInfos[event.Task.Job].Queue].CPU.AllocatedNotPreemptible)
 //@   loop 1
@@ -113,6 +111,6 @@ package proportion
 //@   ensures [CPUAllocatedNotPreemptible] forall q *rs.QueueAttributes :: q.CPU.AllocatedNotPreemptible == old(q.CPU.AllocatedNotPreemptible) - add(pp.queues, ssn.ClusterInfo.PodGroupInfos[event.Task.Job].Queue, q, ite(ssn.ClusterInfo.PodGroupInfos[event.Task.Job].Preemptibility == "preemptible", 0.0, event.Task.AcceptedResource.milliCpu))
 //@   ensures [MemoryAllocated] forall q *rs.QueueAttributes :: q.Memory.Allocated == old(q.Memory.Allocated) - add(pp.queues, ssn.ClusterInfo.PodGroupInfos[event.Task.Job].Queue, q, event.Task.AcceptedResource.memory)
 //@   ensures [MemoryAllocatedNotPreemptible] forall q *rs.QueueAttributes :: q.Memory.AllocatedNotPreemptible == old(q.Memory.AllocatedNotPreemptible) - add(pp.queues, ssn.ClusterInfo.PodGroupInfos[event.Task.Job].Queue, q, ite(ssn.ClusterInfo.PodGroupInfos[event.Task.Job].Preemptibility == "preemptible", 0.0, event.Task.AcceptedResource.memory))
-//@   ensures [GPUAllocated] forall q *rs.QueueAttributes :: q.GPU.Allocated == old(q.GPU.Allocated) - add(pp.queues, ssn.ClusterInfo.PodGroupInfos[event.Task.Job].Queue, q, chargedGPU())
-//@   ensures [GPUAllocatedNotPreemptible] forall q *rs.QueueAttributes :: q.GPU.AllocatedNotPreemptible == old(q.GPU.AllocatedNotPreemptible) - add(pp.queues, ssn.ClusterInfo.PodGroupInfos[event.Task.Job].Queue, q, ite(ssn.ClusterInfo.PodGroupInfos[event.Task.Job].Preemptibility == "preemptible", 0.0, chargedGPU()))
+//@   ensures [GPUAllocated] forall q *rs.QueueAttributes :: q.GPU.Allocated == old(q.GPU.Allocated) - add(pp.queues, ssn.ClusterInfo.PodGroupInfos[event.Task.Job].Queue, q, event.Task.AcceptedResource.GetGpusQuota())
+//@   ensures [GPUAllocatedNotPreemptible] forall q *rs.QueueAttributes :: q.GPU.AllocatedNotPreemptible == old(q.GPU.AllocatedNotPreemptible) - add(pp.queues, ssn.ClusterInfo.PodGroupInfos[event.Task.Job].Queue, q, ite(ssn.ClusterInfo.PodGroupInfos[event.Task.Job].Preemptibility == "preemptible", 0.0, event.Task.AcceptedResource.GetGpusQuota()))
 //@ end
